@@ -11,6 +11,12 @@ CLAIMED = {
  "C09": ("other", "lock typestate dataflow over go/cfg, branch-sensitive on the Lock error",
    "Decides all four clauses (released exactly once on every exit, no Unlock of an unacquired lock, no re-lock while held, every Database access under a lock) on all intra-procedural CFG paths of all 22 units of package pub that touch the Database, including every error exit no mock scripts; callee re-entry is flagged conservatively.",
    "Key identity = resolved key expression (no alias analysis); CFG paths over-approximate feasible ones; panics are not exits; application code is opaque. Trusted: go/types, go/cfg, the checker's transfer function.", "DESIGN.md §4 C09"),
+ "C07": ("other", "SSA must-facts dataflow (gate rule) over own transitive effect resolution of package pub",
+   "The ordering clause is decided for all SSA paths of the five request entry points: every call whose transitive effect reaches the Database, a Transport, the HttpClient or an application side-effect callback is shown to lie in the region where the request was classified as ActivityPub, the protocol flag is on, authentication returned (true, nil) and — inbox POST — authorization returned (true, nil); the gate pass-throughs are shown effect-free, and effect resolution is shown complete (no unresolved dynamic call, nothing effectful handed out of pub).",
+   "Custom DelegateActor implementations and application code are opaque (treated as the effects of their role). CFG paths over-approximate feasible ones. Trusted: go/types, go/ssa, the effect table and fact evaluator of the checker.", "DESIGN.md §4 C07"),
+ "C10": ("other", "ResponseWriter typestate (may-analysis of write histories) combined with SSA must-facts; status table with sibling agreement",
+   "Decides the path clauses on all SSA paths of the five entry points and AuthorizePostInbox: not-handled returns are silent, error returns have no library write, nil returns have exactly one WriteHeader (or none on the denied edge of a gate that was handed the writer), every WriteHeader carries the documented constant for the condition that governs it and every documented row exists, the 201's Location is the id of the activity deliver returned, and the 400 sentinels are produced before any effect.",
+   "What the application's gate writes on denial is outside the library; ResponseWriter faults are outside the fault model; 'usable id' for non-IRI ids is a value-level clause not decided. Trusted: go/types, go/ssa, checker transfer functions.", "DESIGN.md §4 C10"),
 }
 NOT_YET = {}
 ALL = ["C%02d" % i for i in range(1, 21)]
